@@ -92,7 +92,7 @@ theorem mpf_urandomb_alloc_safe (s : FSt) (g : Rand.Gen) (nbits : Nat) (hs : s.o
 
 /-- the seeded bug of the brief: with `prec = PREC (rop) + 1` a request of more than `64 (PREC + 1)` bits makes `_gmp_rand`
     store `PREC + 2` limbs into the block of `PREC + 1` — for every generator and every destination -/
-theorem mpf_urandomb_prec_plus_one_unsafe (s : FSt) (g : Rand.Gen) (nbits : Nat) (hw : FWF s)
+theorem mpf_urandomb_prec_plus_one_overruns (s : FSt) (g : Rand.Gen) (nbits : Nat) (hw : FWF s)
     (hn : 64 * (s.o.prec + 1) < nbits) : (mpf_urandomb 1 s g nbits).1.ok = false := by
   obtain ⟨hb, ha⟩ := hw
   have hlimbs : Rand.bitsToLimbs nbits ≥ s.o.prec + 2 := by unfold Rand.bitsToLimbs; omega
